@@ -1153,13 +1153,23 @@ def _oracle_swt(c, out):
 def nontrivial(c, out):
     if c["op"] == "swt":
         return not out.startswith("E:")
+    if c["op"] == "hist":
+        return "@fit" not in out and "P" in out.split(" ")[0]
     return "res=E:" not in out and "P" in out.split(" ")[0]
 
 
 def features(c, out):
     if c["op"] == "swt":
         return ["op=swt", "swt:" + (out if out.startswith("E:") else "ok"), "swt.sci=" + c["sci"]]
-    f = ["op=run", "strategy=" + c["strategy"], "scitype=" + _sci_expected(c) + ("(inferred)" if c["scitype"] == "infer" else ""),
+    if c["op"] == "hist":
+        r = out.split(" ")[1][4:]
+        f = ["op=hist", "strategy=" + c["strategy"], "via=" + c.get("via", "make"), "hist.fail=" + ("none" if c.get("fail") is None else "k")]
+        if r.endswith("@fit"):
+            return f + ["hist.res=" + r]
+        for o, t in zip(c["ops"], r.split("|")):
+            f.append("hist.%s=%s" % (o["k"], t if t.startswith("E:") else "ok"))
+        return f
+    f = ["op=run", "via=" + c.get("via", "make"), "strategy=" + c["strategy"], "scitype=" + _sci_expected(c) + ("(inferred)" if c["scitype"] == "infer" else ""),
          "X=" + ("none" if c["X"] is None else "%dcol" % (len(c["X"][0]) if c["X"] else 0)), "upd=" + c["upd"]]
     n = len(c["y"])
     f.append("n=" + ("<=12" if n <= 12 else "<=50" if n <= 50 else "<=200"))
@@ -1193,7 +1203,8 @@ DTYPES = ["float64", "int64", "float32", "int32"]
 
 
 def _run_case(rng, strategy, n, wl, fh, nc=0, reg=None, scitype=None, t0=None, upd="no", ulen=0, fhp="same", xp="auto",
-              nan_at=None, dup=False, overlap=0, dtype="float64", xdtype="float64", layout="contig", xlayout="contig"):
+              nan_at=None, dup=False, overlap=0, dtype="float64", xdtype="float64", layout="contig", xlayout="contig",
+              via="make", step=1):
     """overlap = how many stored labels the update block re-states (u0 = t0 + n - overlap)"""
     reg = reg or rng.choice(["tab", "ts"])
     scitype = scitype or rng.choice(["infer", "infer", "tab", "ts"])
@@ -1219,7 +1230,7 @@ def _run_case(rng, strategy, n, wl, fh, nc=0, reg=None, scitype=None, t0=None, u
     c = {"op": "run", "strategy": strategy, "reg": reg, "scitype": scitype, "wl": wl,
          "fh": fh, "fhp": (fh if fhp == "same" else fhp), "t0": t0, "y": y, "X": X,
          "upd": upd, "u0": t0 + n - overlap, "uy": uy, "uX": uX, "Xp": None, "dtype": dtype, "xdtype": xdtype,
-         "layout": layout, "xlayout": xlayout}
+         "layout": layout, "xlayout": xlayout, "via": via, "step": step}
     if xp == "auto":
         if strategy == "recursive" and nc > 0:
             eff = c["fhp"] if c["fhp"] is not None else fh
@@ -1228,6 +1239,85 @@ def _run_case(rng, strategy, n, wl, fh, nc=0, reg=None, scitype=None, t0=None, u
     else:
         c["Xp"] = xp
     return c
+
+
+def _hist_case(rng, strategy=None, script=None):
+    """a history: construct -> fit -> operations, some of which are refused / fail, always ending in a predict.
+    script = list of operation kinds to use (else random)"""
+    strategy = strategy or rng.choice(STRATEGIES)
+    req = strategy != "recursive"
+    wl = rng.choice([1, 2, 2, 3, 4, 6])
+    fh = sorted(rng.sample(range(1, 6), rng.choice([1, 2, 2, 3])))
+    hmax = max(fh)
+    n = wl + hmax + rng.choice([0, 1, 3, 6, 10, 20])
+    nc = 0 if (strategy == "dirrec" or rng.random() < 0.75) else rng.choice([1, 2])
+    fhfit = fh
+    if not req and rng.random() < 0.25:
+        fhfit = None
+    t0 = rng.randrange(-10, 30)
+    kinds = script or [rng.choice(["U", "U", "Ubad", "W", "W", "Wx", "Wshort", "Wempty", "P", "Pbad", "Pnew"])
+                       for _ in range(rng.choice([1, 1, 2, 3]))]
+    ops = []
+    base = [3000]
+
+    def fresh(k):
+        v = list(range(base[0], base[0] + k))
+        rng.shuffle(v)
+        base[0] += k + 5
+        return v
+
+    def rows(k, b):
+        return None if nc == 0 else [[b + i * nc + j for j in range(nc)] for i in range(k)]
+
+    for kd in kinds:
+        ov = rng.choice([0, 0, 1, 2, wl, n // 2])
+        ov = min(ov, n)
+        u0 = t0 + n - ov
+        if kd == "U":
+            L = rng.randrange(1, 5) if ov == 0 else rng.randrange(1, ov + 3)
+            ops.append({"k": "U", "u0": u0, "uy": fresh(L), "uX": rows(L, base[0] + 4000), "refit": rng.random() < 0.3 and fhfit is not None})
+        elif kd == "Ubad":
+            if nc and rng.random() < 0.5:
+                ops.append({"k": "U", "u0": u0, "uy": [], "uX": [], "refit": False})           # empty batch with an X frame
+            else:
+                ops.append({"k": "U", "u0": u0, "uy": fresh(2), "uX": rows(2, base[0] + 4000), "refit": True})   # refit (fails without a horizon)
+        elif kd in ("W", "Wx", "Wshort", "Wempty"):
+            if nc:
+                ops.append({"k": "P", "fh": None if fhfit else fh, "Xp": (rows(hmax, 5000) if strategy == "recursive" else None)})
+                continue
+            L = wl + hmax + rng.choice([0, 1, 2, 4])
+            if kd == "Wshort":
+                L = max(1, wl + hmax - rng.choice([1, 2]))
+            if kd == "Wempty":
+                L = 0
+            o = {"k": "W", "u0": u0, "uy": fresh(L), "Xup": None, "refit": rng.random() < 0.15}
+            if kd == "Wx":
+                o["Xup"] = [[9000 + i] for i in range(L)]
+            ops.append(o)
+        elif kd == "P":
+            ops.append({"k": "P", "fh": rng.choice([None, fh]) if fhfit else fh,
+                        "Xp": (rows(hmax, 5000) if (strategy == "recursive" and nc) else None)})
+        elif kd == "Pbad":
+            bad = rng.choice([[0, 1], [-1], [fh[0], fh[0]], [hmax + 1], []])
+            ops.append({"k": "P", "fh": bad, "Xp": None})
+        else:  # Pnew: another valid horizon (accepted by recursive, refused by the others)
+            nf = sorted(rng.sample(range(1, 6), rng.choice([1, 2])))
+            ops.append({"k": "P", "fh": nf, "Xp": (rows(max(nf), 5000) if (strategy == "recursive" and nc) else None)})
+    ops.append({"k": "P", "fh": rng.choice([None, fh]) if fhfit else fh,
+                "Xp": (rows(hmax, 6000) if (strategy == "recursive" and nc) else None)})
+    via = rng.choice(VIAS)
+    step = 1
+    if via == "cls":
+        step = rng.choice([1, 1, 2, 3, 0])
+    elif rng.random() < 0.06:
+        step = 2
+    reg = rng.choice(["tab", "ts", "tsmix"])
+    return {"op": "hist", "via": via, "step": step, "strategy": strategy, "reg": reg,
+            "scitype": rng.choice(["infer", "tab", "ts"]), "wl": wl, "fh": fhfit, "t0": t0,
+            "y": _vals(rng, n, 1), "X": _mkX(rng, n, nc, 1000),
+            "fail": (rng.choice([0, 1, 2, 3, 5, 8]) if rng.random() < 0.3 else None), "ops": ops,
+            "dtype": rng.choice(DTYPES + ["float64"]), "xdtype": rng.choice(DTYPES + ["float64"]),
+            "layout": rng.choice(YLAYOUTS + ["contig"]), "xlayout": rng.choice(XLAYOUTS + ["contig"])}
 
 
 FH_SUBSETS = [list(s) for r in range(1, 5) for s in itertools.combinations([1, 2, 3, 4], r)]
@@ -1256,7 +1346,8 @@ def gen_cases(tier, rng):
                                                    scitype=("infer" if k % 2 else sci),
                                                    fhp=("same" if k % 4 else None),
                                                    dtype=DTYPES[(k // 3) % 4], xdtype=DTYPES[(k // 5) % 4],
-                                                   layout=YLAYOUTS[(k // 2) % 4], xlayout=XLAYOUTS[(k // 7) % 4]))
+                                                   layout=YLAYOUTS[(k // 2) % 4], xlayout=XLAYOUTS[(k // 7) % 4],
+                                                   via=VIAS[(k // 11) % 4], step=(1 + k % 3 if (k // 11) % 4 == 1 else 1)))
     # ---- (1b) the transform itself, exhaustive small scope
     k = 0
     for n in range(1, 13):
@@ -1333,7 +1424,10 @@ def gen_cases(tier, rng):
         c = _run_case(rng, strategy, n, wl, fhfit, nc=nc, upd=upd, ulen=max(ulen, 0), fhp=fhp, nan_at=nan_at,
                       dup=rng.random() < 0.1, reg=rng.choice(["tab", "ts", "tsmix"]), overlap=overlap,
                       dtype=rng.choice(DTYPES + ["float64"]), xdtype=rng.choice(DTYPES + ["float64"]),
-                      layout=rng.choice(YLAYOUTS + ["contig"]), xlayout=rng.choice(XLAYOUTS + ["contig"]))
+                      layout=rng.choice(YLAYOUTS + ["contig"]), xlayout=rng.choice(XLAYOUTS + ["contig"]),
+                      via=rng.choice(VIAS))
+        if c["via"] == "cls":
+            c["step"] = rng.choice([1, 1, 2, 5])
         if rng.random() < 0.1 and isinstance(c["wl"], int):
             c["wl"] = "np%d" % c["wl"]
         cases.append(c)
@@ -1345,6 +1439,17 @@ def gen_cases(tier, rng):
         nc = rng.choice([0, 1, 3])
         cases.append({"op": "swt", "sci": rng.choice(["tab", "ts"]), "wl": wl, "fh": fh, "y": _vals(rng, max(n, 1)), "X": _mkX(rng, max(n, 1), nc, 1000),
                       "layout": rng.choice(YLAYOUTS), "xlayout": rng.choice(XLAYOUTS)})
+    # ---- (2b) histories with refused / failing operations followed by further operations, all construction paths
+    for strategy in STRATEGIES:
+        for script in (["Wx"], ["Wshort"], ["Wempty"], ["W"], ["Pbad"], ["Pnew"], ["Ubad"], ["Wx", "U"], ["W", "Wx"], ["Pbad", "W"]):
+            for _ in range(1 if quick else 4):
+                c = _hist_case(rng, strategy, script)
+                cases.append(c)
+                c2 = _hist_case(rng, strategy, script)
+                c2["fail"] = rng.choice([0, 1, 2, 3, 4])
+                cases.append(c2)
+    for _ in range(700 if quick else 9000):
+        cases.append(_hist_case(rng))
     # ---- (3) malformed / outside-the-quantifier stream
     nm = 1 if quick else 4
     for _ in range(nm):
@@ -1385,6 +1490,26 @@ def shrink(c):
         yield dict(c, layout="stride2")
     if c.get("layout", "contig") != "contig":
         yield dict(c, layout="contig")
+    if c["op"] == "hist":
+        for i in range(len(c["ops"]) - 1):
+            yield dict(c, ops=c["ops"][:i] + c["ops"][i + 1:])
+        if c.get("fail") is not None:
+            yield dict(c, fail=None)
+            if c["fail"] > 0:
+                yield dict(c, fail=c["fail"] - 1)
+        if c.get("via", "make") != "make" or c.get("step", 1) != 1:
+            yield dict(c, via="make", step=1)
+        if c["scitype"] == "infer":
+            yield dict(c, scitype=_sci_expected(c))
+        for i, o in enumerate(c["ops"]):
+            if o["k"] in ("U", "W") and len(o["uy"]) > 1:
+                o2 = dict(o, uy=o["uy"][:-1])
+                if o["k"] == "U" and o["uX"] is not None:
+                    o2["uX"] = o["uX"][:-1]
+                if o["k"] == "W" and o["Xup"] is not None:
+                    o2["Xup"] = o["Xup"][:-1]
+                yield dict(c, ops=c["ops"][:i] + [o2] + c["ops"][i + 1:])
+        return
     if c["op"] == "swt":
         if len(c["y"]) > 1:
             yield dict(c, y=c["y"][1:], X=None if c["X"] is None else c["X"][1:])
